@@ -170,14 +170,44 @@ def run(ctx):
                    'every <%s> the writer emits must carry the attribute %r '
                    'the reader indexes' % (elem, attr))
     # D3 writer: per-complete-type emission -----------------------------------------
+    # functions of the writer's module that only hand their argument to the
+    # splitter (possibly caching the tuple) split like the splitter
+    splitters = {'genCompleteTypes'}
+    grew = True
+    while grew:
+        grew = False
+        for fname, f2 in gx.module.funcs.items():
+            if fname in splitters or len(f2.params()) != 1:
+                continue
+            prm = f2.params()[0]
+            rets = [n.value for n in ast.walk(f2.node)
+                    if isinstance(n, ast.Return) and n.value is not None]
+
+            def splits(v):
+                while isinstance(v, ast.Call) and \
+                        isinstance(v.func, ast.Name) and \
+                        v.func.id in ('tuple', 'list', 'iter') and \
+                        len(v.args) == 1:
+                    v = v.args[0]
+                if not isinstance(v, ast.Call) or len(v.args) != 1 or \
+                        not (isinstance(v.args[0], ast.Name) and
+                             v.args[0].id == prm):
+                    return False
+                f = v.func
+                nm = f.id if isinstance(f, ast.Name) else (
+                    f.attr if isinstance(f, ast.Attribute) else None)
+                return nm in splitters
+            if rets and all(splits(v) for v in rets):
+                splitters.add(fname)
+                grew = True
     for ad, enc, loops in writer.get('arg', []):
         if enc == 'const':
             continue
         want = {('method', 'in'): 'sigIn', ('method', 'out'): 'sigOut',
                 ('signal', None): 'sig'}.get((enc, ad.get('direction')))
         ok = want is not None and any(
-            'genCompleteTypes' in l and l.rstrip(')').endswith('.' + want)
-            for l in loops)
+            any(sp + '(' in l for sp in splitters) and
+            l.rstrip(')').endswith('.' + want) for l in loops)
         ctx.ob('C15.D3', gx.qualname, 'arg-per-complete-type:%s:%s' % (
             enc, ad.get('direction')), ok,
             'one <arg> must be emitted per complete type of %s (through '
